@@ -40,10 +40,10 @@ def leaperSet (offs : List (Int × Int)) (sq : Nat) : BB :=
     let r := ((sq / 8 : Nat) : Int) + d.2
     if 0 ≤ f ∧ f < 8 ∧ 0 ≤ r ∧ r < 8 then acc ||| sqBB (r * 8 + f).toNat else acc) 0
 
-def knightOffs : List (Int × Int) := [(1, 2), (-1, 2), (1, -2), (-1, -2), (2, 1), (2, -1), (-2, 1), (-2, -1)]
-def kingOffs : List (Int × Int) := [(0, 1), (0, -1), (1, 0), (-1, 0), (1, 1), (-1, 1), (1, -1), (-1, -1)]
-def knightSet (sq : Nat) : BB := leaperSet knightOffs sq
-def kingSet (sq : Nat) : BB := leaperSet kingOffs sq
+def knightJumps : List (Int × Int) := [(1, 2), (-1, 2), (1, -2), (-1, -2), (2, 1), (2, -1), (-2, 1), (-2, -1)]
+def kingSteps : List (Int × Int) := [(0, 1), (0, -1), (1, 0), (-1, 0), (1, 1), (-1, 1), (1, -1), (-1, -1)]
+def knightSet (sq : Nat) : BB := leaperSet knightJumps sq
+def kingSet (sq : Nat) : BB := leaperSet kingSteps sq
 
 /-- squares attacked by pawns of `side` standing on `bb`, from coordinates -/
 def pawnAttackSet (side : Nat) (bb : BB) : BB :=
